@@ -9,14 +9,17 @@
 
 namespace vh {
 
+// The item reports its construction and the reads of its value to the happens-before tracker (a no-op unless the run uses --hb):
+// a reader that got the item through the container must be ordered after the thread that built it.
 struct Item {
     int key; long val;
-    Item(): key( 0 ), val( 0 ) {}
-    Item( int k ): key( k ), val( k * 10L ) {}
-    Item( int k, long v ): key( k ), val( v ) {}
-    Item( Item const& ) = default;
-    Item& operator=( Item const& ) = default;
-    ~Item() { val = -777; key = -777; }     // poison: a read through a pointer to a disposed item shows a wrong value
+    Item(): key( 0 ), val( 0 ) { cds_verif::hb_access( this, true, "item construction" ); }
+    Item( int k ): key( k ), val( k * 10L ) { cds_verif::hb_access( this, true, "item construction" ); }
+    Item( int k, long v ): key( k ), val( v ) { cds_verif::hb_access( this, true, "item construction" ); }
+    Item( Item const& o ): key( o.key ), val( o.val ) { cds_verif::hb_access( this, true, "item copy-construction" ); }
+    Item& operator=( Item const& o ) { key = o.key; val = o.val; cds_verif::hb_access( this, true, "item assignment" ); return *this; }
+    ~Item() { val = -777; key = -777; cds_verif::hb_forget( this ); }     // poison: a read through a pointer to a disposed item shows a wrong value
+    long read_val() const { cds_verif::hb_access( this, false, "read of the item's value" ); return val; }
 };
 
 struct item_less {
@@ -60,10 +63,10 @@ struct UpdF {
 };
 struct FindF {
     long* out;
-    template <class I, class Q> void operator()( I& item, Q& ) const { *out = item.val; }
-    template <class I> void operator()( I& item ) const { *out = item.val; }
+    template <class I, class Q> void operator()( I& item, Q& ) const { *out = item.read_val(); }
+    template <class I> void operator()( I& item ) const { *out = item.read_val(); }
 };
-struct EraseF { long* out; template <class I> void operator()( I const& item ) const { *out = item.val; } };
+struct EraseF { long* out; template <class I> void operator()( I const& item ) const { *out = item.read_val(); } };
 
 enum PtrKind { PK_HP, PK_RCU, PK_NONE };
 
